@@ -105,8 +105,8 @@ func (s *State) setHeap(key string, arr *Term) {
 		s.Heap[key] = arr
 		return
 	}
-	c := Const(freshName("H:"+key), arr.Sort)
-	defConsts.Store(c.Op, true)
+	c := Const(freshName("dH:"+key), arr.Sort)
+	heapDefs[c.Op] = arr
 	s.PC = append(s.PC, Eq(c, arr))
 	s.Heap[key] = c
 }
